@@ -562,6 +562,32 @@ def r_finish_truth(ctx, prog, codecs):
                          '(of_is_decoding_complete) made after the last symbol-table update: a session that is (already) complete '
                          'is reported as failed' % ML)
         ctx.need(nfail >= 1, R, '%s has no FAILURE return' % ML)
+        # OK direction: complete by test, or after a successful solve followed by the write-back over all k source slots
+        wb = None
+        for lp in f.loops.values():
+            lr = loop_range(f, lp, tt)
+            if lr is None or lr.start != ('const', 0) or lr.step != 1 or not is_field_load(lr.bound, 'nb_source_symbols'):
+                continue
+            iv = tt.term(_V(lr.iv))
+            for s2 in stores_in_loop(f, lp):
+                a = tt.term(s2.ops[1])
+                if addr_root(a) == ('elems', 'encoding_symbols_tab') and a[2] == iv:
+                    wb = lp
+        nok = 0
+        for v, src, r in nonerror_returns(prog, f):
+            if const_of(v) != OK:
+                continue
+            nok += 1
+            atoms = atoms_at(f, tt, src)
+            complete = any(a[0] == 'cmp' and a[1] == 'ne' and a[3] == ('const', 0) and a[2][0] == 'call' and
+                           a[2][1] == 'of_is_decoding_complete' for a in atoms)
+            solved = any(a[0] == 'cmp' and a[1] == 'eq' and a[3] == ('const', 0) and a[2][0] == 'call' and
+                         a[2][1] == 'of_linear_binary_code_solve_dense_system' for a in atoms)
+            after_wb = wb is not None and f.bdom(wb.header, src) and src.id not in wb.blocks
+            ctx.instance(R, complete or (solved and after_wb), r, ML + ':ok-implies-complete',
+                         '%s returns OF_STATUS_OK on a path that neither passed a positive completion test nor a successful solve '
+                         'followed by the write-back of all k source slots' % ML)
+        ctx.need(nok >= 1, R, '%s has no OK return' % ML)
 
 
 def _can_follow(fn, a, b):
